@@ -35,8 +35,25 @@ def check(tier):
                           {"engine": "e2_hidden", "solution": f[1], "scalar": f[2], "history": [x for x in f[3].split(" ; ") if x.strip()] + [f[4]], "message": f[5]})
     if len(closures) < 10:
         sys.stderr.write("e2_hidden produced too few closures (%d)\n" % len(closures)); raise SystemExit(2)
-    # ---- (b) cross-handle exploration through the public API
     caps = p_e3.build_caps(b, gen)
+    # ---- (c) order-2 evaluation histories over a scaling-symmetric neighbourhood (stock library, public API only)
+    o2 = os.path.join(b.dir, "e2_order2")
+    b.compile_harness([os.path.join(VERIF, "src", "e2_order2.cpp")], o2, flags=["-O1", "-w"], incs=[gen])
+    o2out = os.path.join(b.dir, "order2.out")
+    r = subprocess.run([o2, caps, o2out, tier], stdout=subprocess.PIPE, stderr=subprocess.STDOUT, text=True)
+    if r.returncode != 0:
+        sys.stderr.write("e2_order2 failed rc=%d:\n%s" % (r.returncode, r.stdout[-2000:])); raise SystemExit(2)
+    o2rows, o2hist, o2evals = [], 0, 0
+    for line in open(o2out, errors="replace"):
+        f = line.rstrip("\n").split("\t")
+        if f[0] == "C":
+            row = {"solution": f[1], "scalar": f[2], "parameters": int(f[3]), "evaluators": int(f[4]), "target_elements": int(f[5]), "histories": int(f[6]), "evaluations": int(f[7]), "violations": int(f[8]), "all_move_pairs": bool(int(f[9])), "library_aborted_elements": int(f[10]) if len(f) > 10 else 0}
+            o2rows.append(row); o2hist += row["histories"]; o2evals += row["evaluations"]
+        elif f[0] == "V":
+            rep.violation("order-2 history: %s<%s> evaluator %s: %s" % (f[1], f[2], f[3], f[4]), {"engine": "e2_order2", "solution": f[1], "scalar": f[2], "evaluator": f[3], "message": f[4], "history": [f[4]]})
+    if len(o2rows) < 20:
+        sys.stderr.write("e2_order2 produced too few rows (%d)\n" % len(o2rows)); raise SystemExit(2)
+    # ---- (b) cross-handle exploration through the public API
     D = {}
     for l in open(caps):
         f = l.split()
@@ -59,10 +76,12 @@ def check(tier):
             results.append(res)
     p_e2.cover(rep, results, "; per solution: handles A,B (same type) and C (another type), double and long double registries, select/set_param/set_vec on any handle interleaved with evaluator calls; every evaluator value must be bit-identical for the same (solution, assignment) whatever the history or handle")
     rep.coverage["states"] += hstates; rep.coverage["transitions"] += htrans; rep.coverage["traces_validated_against_impl"] += htrans
+    rep.coverage["states"] += o2hist; rep.coverage["transitions"] += o2evals; rep.coverage["traces_validated_against_impl"] += o2hist
+    rep.coverage["order2_histories"] = o2hist; rep.coverage["order2_samples"] = sorted(o2rows, key=lambda r: -r["histories"])[:6]
     rep.coverage["hidden_state_closures"] = len(closures)
     rep.coverage["hidden_state_closure_samples"] = sorted(closures, key=lambda c: -c["hidden_states"])[:8]
     rep.coverage["hidden_states_total"] = hstates
-    rep.assumptions += ["hidden state = all bytes of the instance's heap block plus its registered vectors; zero-filled allocation and fork-from-pristine make it reproducible",
+    rep.assumptions += ["order-2 histories: moves restricted to parameter x {2,1/2,-1,8} and coordinate x {2,1/2}; all pairs of moves for solutions with <=16 (quick) / <=64 (thorough) parameters, (parameter, coordinate) pairs otherwise", "hidden state = all bytes of the instance's heap block plus its registered vectors; zero-filled allocation and fork-from-pristine make it reproducible",
                         "closure alphabet excludes set_param/set_vec (they define the configuration): default configuration and, for solutions with vectors, a configuration with vectors replaced but never evaluated"]
     return rep.finish()
 
